@@ -337,7 +337,9 @@ def token_mutations(ctx, n, workdir):
             elif how == 1:
                 edits.append((a_[3], a_[3], " " + text[a_[2]:a_[3]]))           # duplicate
             elif how == 2:
-                edits.append((a_[2], a_[3], ctx.rng.choice(OPS)))               # replace by an operator / number / keyword
+                # (set apart by blanks: glued to its neighbours the replacement would form one preprocessing number or word with them,
+                #  which is not the token that was put there)
+                edits.append((a_[2], a_[3], " " + ctx.rng.choice(OPS) + " "))   # replace by an operator / number / keyword
             elif how == 3:
                 edits.append((a_[3], a_[3], " " + ctx.rng.choice(OPS) + " "))   # insert
             elif not text[b_[2]:b_[3]].startswith("#") and not text[a_[2]:a_[3]].startswith("#"):
